@@ -2,7 +2,7 @@
    Only statements, `exact`, and Print Assumptions.
    Model: Model/Dump.v, Model/DumpReader.v, Model/DumpStack.v. *)
 From ReqV Require Import Lib.Bytes Model.Dump Model.DumpReader Model.DumpStack Model.C13Run
-                         Proofs.DumpProofs Proofs.DumpStackProofs Proofs.DumpMoreProofs
+                         Proofs.DumpProofs Proofs.DumpStackProofs Proofs.DumpMoreProofs Proofs.DumpOrderProofs
                          Model.DumpSync Gen.DumpTables Proofs.DumpSyncProofs.
 
 (* ---- transparency: every hook is an observer, fst (tee f x) = f x, for ANY underlying
@@ -239,6 +239,43 @@ Theorem C13_sequence_concatenates : forall i w xs,
 Proof. exact sequence_concatenates. Qed.
 Print Assumptions C13_sequence_concatenates.
 
+(* ---- call order of the request-level setters (request.go) ---- *)
+(* a request-level dumper exists iff some EnableDump* call was made, wherever in the sequence *)
+Theorem C13_request_dumper_iff_enabled : forall buf ops,
+  (exists o, run_rops buf ops = Some o) <-> existsb is_enable ops = true.
+Proof. exact rops_dumper_iff_enabled. Qed.
+Print Assumptions C13_request_dumper_iff_enabled.
+
+(* SetDumpOptions made LAST - also after EnableDump / EnableDumpTo / EnableDumpWithoutXxx - gives the
+   options the dumper works with (nothing of what was configured before survives) *)
+Theorem C13_set_dump_options_last_wins : forall buf ops o,
+  run_rops buf (ops ++ [RSet o]) =
+  if existsb is_enable ops then Some (request_set_options buf o) else None.
+Proof. exact rops_set_last_wins. Qed.
+Print Assumptions C13_set_dump_options_last_wins.
+
+(* ---- one drain goroutine per queue ---- *)
+Theorem C13_one_drainer_in_order : forall d ops,
+  (forall op, In op ops -> drainer_of op = None \/ drainer_of op = Some d) ->
+  let st := run_qops ops in
+  q_out st ++ map snd (q_held st) ++ q_queue st = qdumped ops.
+Proof. exact one_drainer_in_order. Qed.
+Print Assumptions C13_one_drainer_in_order.
+
+(* ---- an HTTP/2 response header block that is never completed or is rejected: the lines of the
+        fields that were decoded, at the response-header writer, no closing CRLF ---- *)
+Theorem C13_h2_partial_block_content : forall i o w ds fs,
+  NoDup (map fst ds) -> In (i, o) ds ->
+  content i w (h2_partial_block_log ds fs) =
+  if enabled o PRespH && N.eqb w (resolve o PRespH) then flat_map field_line fs else [].
+Proof. exact h2_partial_block_content. Qed.
+Print Assumptions C13_h2_partial_block_content.
+
+Theorem C13_h2_partial_block_is_prefix : forall ds fs,
+  h23_resp_header_log ds fs = h2_partial_block_log ds fs ++ hook_emit_all ds (HRespHeader crlf).
+Proof. exact h2_partial_block_prefix. Qed.
+Print Assumptions C13_h2_partial_block_is_prefix.
+
 (* ---- tie to the source text (tables regenerated from the Go files by gosync on every run) ---- *)
 (* the model's writer resolution is the fall-back chain written in dump.go, for every option
    record and every part *)
@@ -253,9 +290,27 @@ Print Assumptions C13_resolve_matches_source.
 Theorem C13_tables_match_source :
   gen_flags = expected_flags /\ gen_wrappers = expected_wrappers /\
   gen_separators = expected_separators /\ gen_dumpto = expected_dumpto /\
-  gen_bufio_asserts = expected_bufio_asserts.
+  gen_bufio_asserts = expected_bufio_asserts /\ gen_shared_state = expected_shared_state.
 Proof. exact tables_match_source. Qed.
 Print Assumptions C13_tables_match_source.
+
+(* ---- seeded variants, refuted ---- *)
+(* SetDumpOptions keeping the caller's pointer (c-m3): ignored after EnableDump, fine before *)
+Theorem C13_keep_pointer_setter_refuted :
+  let o := mkOpts (Some 21%N) None None None None None None true false true false false in
+  run_rops_keep 2%N [REnable; RSet o] <> run_rops 2%N [REnable; RSet o] /\
+  run_rops_keep 2%N [RSet o; REnable] = run_rops 2%N [RSet o; REnable].
+Proof. exact rops_keep_refuted. Qed.
+Print Assumptions C13_keep_pointer_setter_refuted.
+
+(* two drain goroutines on one queue (c-m1) reorder *)
+Theorem C13_two_drainers_reorder :
+  let a := (7%N, bs "GET / HTTP/1.1") in
+  let b := (7%N, bs "Host: x") in
+  let ops := [QDump a; QDump b; QTake 0; QTake 1; QWrite 1; QWrite 0] in
+  q_out (run_qops ops) = [b; a] /\ qdumped ops = [a; b].
+Proof. exact two_drainers_reorder. Qed.
+Print Assumptions C13_two_drainers_reorder.
 
 (* ---- the pinned code, refuted ---- *)
 (* a writeBody that asserts *bufio.Writer on the body-dump-wrapped writer (seeded change b-m2) *)
